@@ -1,4 +1,8 @@
--- Root of the `FerretVerif` library: models (core-only), regenerated tables,
--- proofs and the property theorems.
-import FerretVerif.Model.Num
+-- Root of the `FerretVerif` library: models (core-only), regenerated tables, proofs and the property theorems.
+import FerretVerif.Props.C10
 import FerretVerif.Props.C11
+import FerretVerif.Props.C15
+import FerretVerif.Props.C16
+import FerretVerif.Props.C17
+import FerretVerif.Props.C18
+import FerretVerif.Props.C20
